@@ -92,9 +92,8 @@ structure WInv (s : State) (t : Nat) (w : Worker) : Prop where
 structure Inv (s : State) : Prop where
   tile : Tiles s.log 0 (slice s.src 0 (covered s))
   ws : ∀ t w, s.ws[t]? = some w → WInv s t w
-  stoppedBy : s.stopped = true → ∃ w ∈ s.ws, w.found.isSome
+  stoppedBy : s.stopped = true → ∃ (t : Nat) (w : Worker), s.ws[t]? = some w ∧ w.found.isSome
   tids : ∀ c ∈ s.log, c.tid < s.ws.length
-  bound : ∀ l, s.len = some l → s.pos < l ∨ covered s = l
 
 theorem get_set_self {ws : List Worker} {t : Nat} {w w' : Worker} (h : ws[t]? = some w) :
     (ws.set t w')[t]? = some w' := by
@@ -104,27 +103,407 @@ theorem get_set_self {ws : List Worker} {t : Nat} {w w' : Worker} (h : ws[t]? = 
 theorem get_set_ne {ws : List Worker} {t t' : Nat} (w' : Worker) (h : t' ≠ t) :
     (ws.set t w')[t']? = ws[t']? := List.getElem?_set_ne (Ne.symm h)
 
+/-! ### the five kinds of steps -/
+
+theorem step_none {s : State} {t : Nat} (h : s.ws[t]? = none) : step s t = s := by
+  simp [step, h]
+
+theorem step_done {s : State} {t : Nat} {w : Worker} (h : s.ws[t]? = some w)
+    (hst : w.status = .done) : step s t = s := by
+  simp [step, h, hst]
+
+theorem step_publish {s : State} {t : Nat} {w : Worker} (h : s.ws[t]? = some w)
+    (hst : w.status = .publishing) :
+    step s t = { s with stopped := true, ws := s.ws.set t { w with status := .done } } := by
+  simp [step, h, hst]
+
+/-- the worker after evaluating a hit `x` at the head of its buffer `x :: rest` -/
+def hitW (w : Worker) (x : Val) (rest : List Val) : Worker :=
+  { w with buf := [], seen := w.seen ++ [(w.bufPos, x)], found := some (w.bufPos, x),
+           status := .publishing,
+           dropped := (rest.zipIdx (w.bufPos + 1)).map fun p => (p.2, p.1) }
+
+theorem step_hit {s : State} {t : Nat} {w : Worker} {x : Val} {rest : List Val}
+    (h : s.ws[t]? = some w) (hst : w.status = .running) (hb : w.buf = x :: rest)
+    (hx : s.hit x = true) :
+    step s t = { s with ws := s.ws.set t (hitW w x rest) } := by
+  simp [step, h, hst, hb, hx, hitW]
+
+/-- the worker after evaluating a non-hit `x` at the head of its buffer `x :: rest` -/
+def nohitW (w : Worker) (x : Val) (rest : List Val) : Worker :=
+  { w with buf := rest, bufPos := w.bufPos + 1, seen := w.seen ++ [(w.bufPos, x)] }
+
+theorem step_nohit {s : State} {t : Nat} {w : Worker} {x : Val} {rest : List Val}
+    (h : s.ws[t]? = some w) (hst : w.status = .running) (hb : w.buf = x :: rest)
+    (hx : s.hit x = false) :
+    step s t = { s with ws := s.ws.set t (nohitW w x rest) } := by
+  simp [step, h, hst, hb, hx, nohitW]
+
+theorem step_finish {s : State} {t : Nat} {w : Worker}
+    (h : s.ws[t]? = some w) (hst : w.status = .running) (hb : w.buf = [])
+    (hx : s.stopped = true ∨ avail s.len s.pos w.c = 0) :
+    step s t = { s with ws := s.ws.set t { w with status := .done } } := by
+  rcases hx with hx | hx <;> simp [step, h, hst, hb, hx]
+
+/-- the state after a successful pull of worker `t` -/
+def pullS (s : State) (t : Nat) (w : Worker) : State :=
+  { s with pos := s.pos + w.c,
+           ws := s.ws.set t
+             { w with buf := slice s.src s.pos (avail s.len s.pos w.c), bufPos := s.pos },
+           log := s.log ++ [⟨t, s.pos, slice s.src s.pos (avail s.len s.pos w.c)⟩] }
+
+theorem step_pull {s : State} {t : Nat} {w : Worker}
+    (h : s.ws[t]? = some w) (hst : w.status = .running) (hb : w.buf = [])
+    (hs : s.stopped = false) (hn : avail s.len s.pos w.c ≠ 0) :
+    step s t = pullS s t w := by
+  simp [step, h, hst, hb, hs, hn, pullS]
+
+/-- case analysis on a step -/
+theorem step_cases {P : State → Prop} (s : State) (t : Nat)
+    (hskip : (s.ws[t]? = none ∨ ∃ w, s.ws[t]? = some w ∧ w.status = .done) → P s)
+    (hpub : ∀ w, s.ws[t]? = some w → w.status = .publishing →
+      P { s with stopped := true, ws := s.ws.set t { w with status := .done } })
+    (hhit : ∀ w x rest, s.ws[t]? = some w → w.status = .running → w.buf = x :: rest →
+      s.hit x = true → P { s with ws := s.ws.set t (hitW w x rest) })
+    (hnohit : ∀ w x rest, s.ws[t]? = some w → w.status = .running → w.buf = x :: rest →
+      s.hit x = false → P { s with ws := s.ws.set t (nohitW w x rest) })
+    (hfin : ∀ w, s.ws[t]? = some w → w.status = .running → w.buf = [] →
+      (s.stopped = true ∨ avail s.len s.pos w.c = 0) →
+      P { s with ws := s.ws.set t { w with status := .done } })
+    (hpull : ∀ w, s.ws[t]? = some w → w.status = .running → w.buf = [] →
+      s.stopped = false → avail s.len s.pos w.c ≠ 0 → P (pullS s t w)) :
+    P (step s t) := by
+  cases hw : s.ws[t]? with
+  | none => rw [step_none hw]; exact hskip (Or.inl hw)
+  | some w =>
+    cases hst : w.status with
+    | done => rw [step_done hw hst]; exact hskip (Or.inr ⟨w, hw, hst⟩)
+    | publishing => rw [step_publish hw hst]; exact hpub w hw hst
+    | running =>
+      cases hb : w.buf with
+      | cons x rest =>
+        cases hx : s.hit x with
+        | true => rw [step_hit hw hst hb hx]; exact hhit w x rest hw hst hb hx
+        | false => rw [step_nohit hw hst hb hx]; exact hnohit w x rest hw hst hb hx
+      | nil =>
+        cases hs : s.stopped with
+        | true => rw [step_finish hw hst hb (Or.inl hs)]; exact hfin w hw hst hb (Or.inl hs)
+        | false =>
+          by_cases hn : avail s.len s.pos w.c = 0
+          · rw [step_finish hw hst hb (Or.inr hn)]; exact hfin w hw hst hb (Or.inr hn)
+          · rw [step_pull hw hst hb hs hn]; exact hpull w hw hst hb hs hn
+
 theorem step_frame (s : State) (t : Nat) :
     (step s t).ws.length = s.ws.length ∧ (step s t).src = s.src ∧ (step s t).len = s.len ∧
     (step s t).hit = s.hit := by
-  sorry
+  apply step_cases s t (P := fun s' => s'.ws.length = s.ws.length ∧ s'.src = s.src ∧
+    s'.len = s.len ∧ s'.hit = s.hit) <;> intros <;> simp [pullS]
 
 theorem run_frame (s : State) (sched : List Nat) :
     (run s sched).ws.length = s.ws.length ∧ (run s sched).src = s.src ∧ (run s sched).len = s.len ∧
     (run s sched).hit = s.hit := by
-  sorry
+  induction sched generalizing s with
+  | nil => exact ⟨rfl, rfl, rfl, rfl⟩
+  | cons t ts ih =>
+    have h1 := ih (step s t)
+    have h2 := step_frame s t
+    simp only [run, List.foldl_cons] at h1 ⊢
+    exact ⟨h1.1.trans h2.1, h1.2.1.trans h2.2.1, h1.2.2.1.trans h2.2.2.1, h1.2.2.2.trans h2.2.2.2⟩
+
+/-! ### preservation of the invariant -/
+
+theorem WInv.mono {s s' : State} {t : Nat} {w : Worker} (h : WInv s t w)
+    (hlog : elemsOf s'.log t = elemsOf s.log t) (hhit : s'.hit = s.hit)
+    (hst : s.stopped = true → s'.stopped = true) (hlen : s'.len = s.len)
+    (hpos : s.pos ≤ s'.pos) : WInv s' t w := by
+  refine ⟨h.cpos, hlog.trans h.own, ?_, ?_, h.running, h.publishing, ?_⟩
+  · rw [hhit]; exact h.nofound
+  · rw [hhit]; exact h.found
+  · intro hd
+    obtain ⟨h1, h2⟩ := h.fin hd
+    refine ⟨h1, ?_⟩
+    rcases h2 with h2 | h2 | ⟨l, hl, hle⟩
+    · exact Or.inl h2
+    · exact Or.inr (Or.inl (hst h2))
+    · exact Or.inr (Or.inr ⟨l, by rw [hlen]; exact hl, by omega⟩)
+
+/-- a step that only replaces worker `t` -/
+theorem inv_set {s s' : State} {t : Nat} {w w' : Worker} (h : Inv s) (hw : s.ws[t]? = some w)
+    (hws : s'.ws = s.ws.set t w') (hsrc : s'.src = s.src) (hlen : s'.len = s.len)
+    (hhit : s'.hit = s.hit) (hpos : s'.pos = s.pos) (hlog : s'.log = s.log)
+    (hstop : s.stopped = true → s'.stopped = true)
+    (hstop' : s'.stopped = true → s.stopped = true ∨ w'.found.isSome)
+    (hfound : w.found.isSome → w'.found.isSome)
+    (hW : WInv s' t w') : Inv s' := by
+  refine ⟨?_, ?_, ?_, ?_⟩
+  · have : covered s' = covered s := by simp only [covered, hlen, hpos]
+    rw [hlog, hsrc, this]; exact h.tile
+  · intro t' w'' hw''
+    rw [hws] at hw''
+    by_cases htt : t' = t
+    · subst htt
+      rw [get_set_self hw] at hw''
+      cases hw''
+      exact hW
+    · rw [get_set_ne _ htt] at hw''
+      exact (h.ws t' w'' hw'').mono (by rw [hlog]) hhit hstop hlen (by omega)
+  · intro hs
+    rcases hstop' hs with h1 | h1
+    · obtain ⟨t', w0, hw0, hf⟩ := h.stoppedBy h1
+      by_cases htt : t' = t
+      · subst htt
+        rw [hw] at hw0
+        cases hw0
+        exact ⟨t', w', by rw [hws]; exact get_set_self hw, hfound hf⟩
+      · exact ⟨t', w0, by rw [hws, get_set_ne _ htt]; exact hw0, hf⟩
+    · exact ⟨t, w', by rw [hws]; exact get_set_self hw, h1⟩
+  · intro c hc
+    rw [hws, List.length_set]
+    rw [hlog] at hc
+    exact h.tids c hc
+
+/-- `covered` as a function of the length and the position -/
+def cov (len : Option Nat) (pos : Nat) : Nat :=
+  match len with
+  | none => pos
+  | some l => Nat.min pos l
+
+theorem covered_eq_cov (s : State) : covered s = cov s.len s.pos := rfl
+
+theorem avail_covered (len : Option Nat) (pos c : Nat) (hn : avail len pos c ≠ 0) :
+    cov len pos = pos ∧ cov len (pos + c) = pos + avail len pos c := by
+  cases len with
+  | none => simp [avail, cov]
+  | some l =>
+    simp only [avail, cov, Nat.min_def] at hn ⊢
+    split at hn <;> constructor <;> split <;> omega
+
+theorem avail_zero (len : Option Nat) (pos c : Nat) (hc : 0 < c) (hn : avail len pos c = 0) :
+    ∃ l, len = some l ∧ l ≤ pos := by
+  cases len with
+  | none => simp [avail] at hn; omega
+  | some l =>
+    refine ⟨l, rfl, ?_⟩
+    simp only [avail, Nat.min_def] at hn
+    split at hn <;> omega
+
+theorem elemsOf_single_self (t a : Nat) (l : List Val) : elemsOf [⟨t, a, l⟩] t = idx l a := by
+  simp [elemsOf, idxElems_single]
+
+theorem elemsOf_single_ne (t t' a : Nat) (l : List Val) (h : t' ≠ t) :
+    elemsOf [⟨t, a, l⟩] t' = [] := by
+  have : (t == t') = false := by simpa using Ne.symm h
+  simp [elemsOf, this, K.idxElems]
+
+theorem idx_nil (a : Nat) : idx [] a = [] := rfl
 
 /-- the invariant holds initially (all chunk sizes positive) … -/
 theorem init_inv (src : Nat → Val) (len : Option Nat) (hit : Val → Bool) (cs : List Nat)
     (hpos : ∀ c ∈ cs, 0 < c) : Inv (init src len hit cs) := by
-  sorry
+  refine ⟨?_, ?_, ?_, ?_⟩
+  · have : covered (init src len hit cs) = 0 := by
+      cases len <;> simp [covered, init]
+    rw [this]
+    simp [init, Tiles, slice]
+  · intro t w hw
+    simp only [init, List.getElem?_map, Option.map_eq_some_iff] at hw
+    obtain ⟨c, hc, rfl⟩ := hw
+    have hc' : c ∈ cs := List.mem_of_getElem? hc
+    refine ⟨hpos c hc', ?_, ?_, ?_, ?_, ?_, ?_⟩
+    · simp [elemsOf, init, K.idxElems, idx]
+    · intro _; exact ⟨(by intro p hp; cases hp), rfl⟩
+    · intro q hq; cases hq
+    · intro _; rfl
+    · intro hq; cases hq
+    · intro hq; cases hq
+  · intro hs; simp [init] at hs
+  · intro c hc; simp [init] at hc
 
 /-- … and is preserved by every step of every worker -/
 theorem step_inv (s : State) (t : Nat) (h : Inv s) : Inv (step s t) := by
-  sorry
+  apply step_cases s t (P := Inv)
+  · intro _; exact h
+  · -- publish
+    intro w hw hst
+    have hwi := h.ws t w hw
+    have hf : w.found.isSome = true := hwi.publishing hst
+    refine inv_set (w' := { w with status := .done }) h hw rfl rfl rfl rfl rfl rfl (fun _ => rfl)
+      (fun _ => Or.inr hf) (fun x => x) ?_
+    refine ⟨hwi.cpos, hwi.own, hwi.nofound, hwi.found, ?_, ?_, ?_⟩
+    · intro hq; cases hq
+    · intro hq; cases hq
+    · intro _
+      obtain ⟨q, hq⟩ := Option.isSome_iff_exists.1 hf
+      obtain ⟨_, _, _, _, hb⟩ := hwi.found q hq
+      exact ⟨hb, Or.inl hf⟩
+  · -- hit
+    intro w x rest hw hst hb hx
+    have hwi := h.ws t w hw
+    have hfn := hwi.running hst
+    obtain ⟨hnh, hd⟩ := hwi.nofound hfn
+    refine inv_set (w' := hitW w x rest) h hw rfl rfl rfl rfl rfl rfl (fun x => x)
+      (fun x => Or.inl x) (fun _ => rfl) ?_
+    refine ⟨hwi.cpos, ?_, ?_, ?_, ?_, ?_, ?_⟩
+    · show elemsOf s.log t = (w.seen ++ [(w.bufPos, x)]) ++ idx [] w.bufPos ++ idx rest (w.bufPos + 1)
+      rw [hwi.own, hb, idx_cons, hd, idx_nil]
+      simp
+    · intro hq; cases hq
+    · intro q hq
+      cases hq
+      exact ⟨w.seen, rfl, hnh, hx, rfl⟩
+    · intro hq; cases hq
+    · intro _; rfl
+    · intro hq; cases hq
+  · -- no hit
+    intro w x rest hw hst hb hx
+    have hwi := h.ws t w hw
+    have hfn := hwi.running hst
+    obtain ⟨hnh, hd⟩ := hwi.nofound hfn
+    refine inv_set (w' := nohitW w x rest) h hw rfl rfl rfl rfl rfl rfl (fun x => x)
+      (fun x => Or.inl x) (fun x => x) ?_
+    refine ⟨hwi.cpos, ?_, ?_, ?_, ?_, ?_, ?_⟩
+    · show elemsOf s.log t = (w.seen ++ [(w.bufPos, x)]) ++ idx rest (w.bufPos + 1) ++ w.dropped
+      rw [hwi.own, hb, idx_cons]
+      simp
+    · intro _
+      refine ⟨?_, hd⟩
+      intro p hp
+      rcases List.mem_append.1 hp with hp | hp
+      · exact hnh p hp
+      · rw [List.mem_singleton.1 hp]; exact hx
+    · intro q hq
+      have : w.found = some q := hq
+      rw [hfn] at this; cases this
+    · intro _; exact hfn
+    · intro hq; exact nomatch hq.symm.trans hst
+    · intro hq; exact nomatch hq.symm.trans hst
+  · -- finish
+    intro w hw hst hb hx
+    have hwi := h.ws t w hw
+    refine inv_set (w' := { w with status := .done }) h hw rfl rfl rfl rfl rfl rfl (fun x => x)
+      (fun x => Or.inl x) (fun x => x) ?_
+    refine ⟨hwi.cpos, hwi.own, hwi.nofound, hwi.found, ?_, ?_, ?_⟩
+    · intro hq; cases hq
+    · intro hq; cases hq
+    · intro _
+      refine ⟨hb, Or.inr ?_⟩
+      rcases hx with hx | hx
+      · exact Or.inl hx
+      · exact Or.inr (avail_zero _ _ _ hwi.cpos hx)
+  · -- pull
+    intro w hw hst hb hs hn
+    have hwi := h.ws t w hw
+    have hfn := hwi.running hst
+    obtain ⟨hnh, hd⟩ := hwi.nofound hfn
+    have hlt : t < s.ws.length := (List.getElem?_eq_some_iff.1 hw).1
+    obtain ⟨hc1, hc2⟩ := avail_covered s.len s.pos w.c hn
+    have hcov : covered s = s.pos := hc1
+    have hcov' : covered (pullS s t w) = s.pos + avail s.len s.pos w.c := hc2
+    refine ⟨?_, ?_, ?_, ?_⟩
+    · rw [hcov']
+      show Tiles (s.log ++ [⟨t, s.pos, slice s.src s.pos (avail s.len s.pos w.c)⟩]) 0
+        (slice s.src 0 (s.pos + avail s.len s.pos w.c))
+      rw [slice_append, Nat.zero_add]
+      have ht := h.tile
+      rw [hcov] at ht
+      exact Tiles_snoc _ _ _ ⟨t, s.pos, slice s.src s.pos (avail s.len s.pos w.c)⟩ ht
+        (by simp [slice_length]) (slice_ne_nil _ _ _ (Nat.pos_of_ne_zero hn))
+    · intro t' w'' hw''
+      by_cases htt : t' = t
+      · subst htt
+        have : (pullS s t' w).ws[t']? = some _ := get_set_self hw
+        rw [this] at hw''
+        cases hw''
+        refine ⟨hwi.cpos, ?_, hwi.nofound, ?_, hwi.running, hwi.publishing, ?_⟩
+        · show elemsOf (s.log ++ [⟨t', s.pos, slice s.src s.pos (avail s.len s.pos w.c)⟩]) t' =
+            w.seen ++ idx (slice s.src s.pos (avail s.len s.pos w.c)) s.pos ++ w.dropped
+          rw [elemsOf_append, hwi.own, hb, hd, idx_nil, elemsOf_single_self]
+          simp
+        · intro q hq
+          have : w.found = some q := hq
+          rw [hfn] at this; cases this
+        · intro hq; exact nomatch hq.symm.trans hst
+      · have : (pullS s t w).ws[t']? = s.ws[t']? := get_set_ne _ htt
+        rw [this] at hw''
+        refine (h.ws t' w'' hw'').mono ?_ rfl (fun x => x) rfl (Nat.le_add_right _ _)
+        show elemsOf (s.log ++ [⟨t, s.pos, slice s.src s.pos (avail s.len s.pos w.c)⟩]) t' = _
+        rw [elemsOf_append, elemsOf_single_ne _ _ _ _ htt, List.append_nil]
+    · intro hs'
+      have : s.stopped = true := hs'
+      rw [hs] at this; cases this
+    · intro c hc
+      have hlen : (pullS s t w).ws.length = s.ws.length := by simp [pullS]
+      rw [hlen]
+      have : c ∈ s.log ++ [⟨t, s.pos, slice s.src s.pos (avail s.len s.pos w.c)⟩] := hc
+      rcases List.mem_append.1 this with hc | hc
+      · exact h.tids c hc
+      · rw [List.mem_singleton.1 hc]; exact hlt
 
 theorem run_inv (s : State) (sched : List Nat) (h : Inv s) : Inv (run s sched) := by
-  sorry
+  induction sched generalizing s with
+  | nil => exact h
+  | cons t ts ih => exact ih (step s t) (step_inv s t h)
+
+/-! ### consequences for finished runs -/
+
+theorem slice_take (src : Nat → Val) (k N : Nat) (h : k ≤ N) :
+    (slice src 0 N).take k = slice src 0 k := by
+  obtain ⟨m, rfl⟩ := Nat.exists_eq_add_of_le h
+  rw [slice_append]
+  exact List.take_left' (slice_length _ _ _)
+
+theorem elemsOf_subset {log : List Chunk} {t : Nat} {p : Nat × Val} (h : p ∈ elemsOf log t) :
+    p ∈ K.idxElems log := by
+  simp only [elemsOf, K.idxElems, List.mem_flatMap, List.mem_filter] at h ⊢
+  obtain ⟨c, ⟨hc, _⟩, hp⟩ := h
+  exact ⟨c, hc, hp⟩
+
+theorem mem_idx {l : List Val} {a : Nat} {p : Nat × Val} (h : p ∈ idx l a) : p.2 ∈ l := by
+  simp only [idx, List.mem_map] at h
+  obtain ⟨q, hq, rfl⟩ := h
+  exact (List.mem_zipIdx hq).2.2 ▸ List.getElem_mem _
+
+theorem slice_ofList (xs : List Val) : slice (ofList xs) 0 xs.length = xs := by
+  apply List.ext_getElem
+  · simp [slice_length]
+  · intro i h1 h2
+    simp [slice, ofList, h2]
+
+/-- at the end: either the evaluated prefix contains a hit, or nobody found anything, the
+    iterator was never stopped and the source is exhausted -/
+theorem inv_covers (s : State) (h : Inv s) (hd : AllDone s) (hne : 0 < s.ws.length) :
+    (∃ x ∈ slice s.src 0 (covered s), s.hit x = true) ∨
+    (s.stopped = false ∧ (∀ (t : Nat) (w : Worker), s.ws[t]? = some w → w.found = none) ∧
+      ∃ l, s.len = some l ∧ l ≤ s.pos) := by
+  by_cases hex : ∃ (t : Nat) (w : Worker), s.ws[t]? = some w ∧ w.found.isSome
+  · left
+    obtain ⟨t, w, hw, hf⟩ := hex
+    have hwi := h.ws t w hw
+    obtain ⟨q, hq⟩ := Option.isSome_iff_exists.1 hf
+    obtain ⟨ini, hseen, _, hhit, _⟩ := hwi.found q hq
+    refine ⟨q.2, ?_, hhit⟩
+    have h1 : q ∈ elemsOf s.log t := by
+      rw [hwi.own, hseen]; simp
+    have h2 := elemsOf_subset h1
+    rw [Tiles_idxElems h.tile] at h2
+    exact mem_idx h2
+  · right
+    have hnone : ∀ (t : Nat) (w : Worker), s.ws[t]? = some w → w.found = none := by
+      intro t w hw
+      cases hf : w.found with
+      | none => rfl
+      | some q => exact absurd ⟨t, w, hw, by simp [hf]⟩ hex
+    have hst : s.stopped = false := by
+      cases hs : s.stopped with
+      | false => rfl
+      | true => exact absurd (h.stoppedBy hs) hex
+    refine ⟨hst, hnone, ?_⟩
+    have hw0 : s.ws[0]? = some s.ws[0] := List.getElem?_eq_getElem hne
+    have hd0 := hd _ (List.getElem_mem hne)
+    rcases ((h.ws 0 _ hw0).fin hd0).2 with h1 | h1 | h1
+    · rw [hnone 0 _ hw0] at h1; cases h1
+    · rw [hst] at h1; cases h1
+    · exact h1
 
 /-- the execution context a finished run denotes: the pull log, workers in spawn order -/
 def execOf (s : State) : Exec :=
@@ -139,7 +518,36 @@ theorem run_accepts_find (src : Nat → Val) (len : Option Nat) (hit : Val → B
     (hN : len = some N ∨ (len = none ∧ covered (run (init src len hit cs) sched) ≤ N)) :
     (execOf (run (init src len hit cs) sched)).AcceptsFindAt (slice src 0 N) hit
       (covered (run (init src len hit cs) sched)) := by
-  sorry
+  have hinv := run_inv _ sched (init_inv src len hit cs hpos)
+  obtain ⟨hf1, hf2, hf3, hf4⟩ := run_frame (init src len hit cs) sched
+  generalize run (init src len hit cs) sched = s at *
+  have hf1 : s.ws.length = cs.length := by simpa [init] using hf1
+  have hf2 : s.src = src := hf2
+  have hf3 : s.len = len := hf3
+  have hf4 : s.hit = hit := hf4
+  have hlen : 0 < s.ws.length := by rw [hf1]; exact List.length_pos_iff.2 hne
+  have hcov : covered s ≤ N := by
+    rcases hN with hN | hN
+    · rw [covered_eq_cov, hf3, hN]
+      simp only [cov, Nat.min_def]; split <;> omega
+    · exact hN.2
+  have htake : (slice src 0 N).take (covered s) = slice src 0 (covered s) := slice_take _ _ _ hcov
+  refine ⟨?_, List.nodup_range, ?_, ?_⟩
+  · rw [htake, ← hf2]; exact hinv.tile
+  · intro c hc
+    exact List.mem_range.2 (hinv.tids c hc)
+  · rw [htake, slice_length]
+    rcases inv_covers s hinv hd hlen with ⟨x, hx, hh⟩ | ⟨_, _, l, hl, hle⟩
+    · right
+      rw [hf2] at hx; rw [hf4] at hh
+      exact ⟨x, hx, hh⟩
+    · left
+      rw [hf3] at hl
+      rcases hN with hN | hN
+      · rw [hN] at hl; cases hl
+        rw [covered_eq_cov, hf3, hN]
+        simp only [cov, Nat.min_def]; split <;> omega
+      · rw [hN.1] at hl; cases hl
 
 /-- full-visit kernels never stop the iterator: a finished run over a finite source is an
     accepted full execution — the chunks tile the whole source -/
@@ -147,7 +555,15 @@ theorem run_accepts_full (xs : List Val) (cs : List Nat) (hne : cs ≠ []) (hpos
     (sched : List Nat)
     (hd : AllDone (run (init (ofList xs) (some xs.length) (fun _ => false) cs) sched)) :
     (execOf (run (init (ofList xs) (some xs.length) (fun _ => false) cs) sched)).Accepts xs := by
-  sorry
+  have h := run_accepts_find (ofList xs) (some xs.length) (fun _ => false) cs hne hpos sched hd
+    xs.length (Or.inl rfl)
+  obtain ⟨h1, h2, h3, h4⟩ := h
+  rw [slice_ofList] at h1 h4
+  refine ⟨?_, h2, h3⟩
+  rcases h4 with h4 | ⟨x, _, hx⟩
+  · rw [List.take_of_length_le h4] at h1
+    exact h1
+  · cases hx
 
 /-- what a worker reports is the first hit among the elements of the chunks it pulled -/
 theorem run_found (src : Nat → Val) (len : Option Nat) (hit : Val → Bool) (cs : List Nat)
@@ -155,25 +571,219 @@ theorem run_found (src : Nat → Val) (len : Option Nat) (hit : Val → Bool) (c
     (hd : AllDone (run (init src len hit cs) sched)) (t : Nat) (w : Worker)
     (hw : (run (init src len hit cs) sched).ws[t]? = some w) :
     w.found = (elemsOf (run (init src len hit cs) sched).log t).find? (fun p => hit p.2) := by
-  sorry
+  have hinv := run_inv _ sched (init_inv src len hit cs hpos)
+  obtain ⟨_, _, _, hf4⟩ := run_frame (init src len hit cs) sched
+  generalize run (init src len hit cs) sched = s at *
+  have hf4 : s.hit = hit := hf4
+  have hwi := hinv.ws t w hw
+  have hb := (hwi.fin (hd w (List.mem_of_getElem? hw))).1
+  rw [hwi.own, hb, idx_nil, List.append_nil]
+  cases hf : w.found with
+  | none =>
+    obtain ⟨h1, h2⟩ := hwi.nofound hf
+    rw [h2, List.append_nil]
+    symm
+    rw [List.find?_eq_none]
+    intro p hp
+    have := h1 p hp
+    rw [hf4] at this
+    simp [this]
+  | some q =>
+    obtain ⟨ini, h1, h2, h3, _⟩ := hwi.found q hf
+    rw [hf4] at h2 h3
+    have hini : ini.find? (fun p => hit p.2) = none := by
+      rw [List.find?_eq_none]
+      intro p hp
+      simp [h2 p hp]
+    rw [h1, List.append_assoc, List.find?_append, hini]
+    simp [h3]
 
 /-- every worker evaluated exactly a prefix of the elements of its chunks, in order -/
 theorem run_seen_prefix (src : Nat → Val) (len : Option Nat) (hit : Val → Bool) (cs : List Nat)
     (hpos : ∀ c ∈ cs, 0 < c) (sched : List Nat) (t : Nat) (w : Worker)
     (hw : (run (init src len hit cs) sched).ws[t]? = some w) :
     w.seen <+: elemsOf (run (init src len hit cs) sched).log t := by
-  sorry
+  have hinv := run_inv _ sched (init_inv src len hit cs hpos)
+  rw [(hinv.ws t w hw).own, List.append_assoc]
+  exact List.prefix_append _ _
+
+/-! ### after a stop -/
+
+/-- what can happen to a worker once the iterator is stopped: it evaluates some more elements
+    of the buffer it holds, and either keeps the rest or has nothing left -/
+def Consumes (w w' : Worker) : Prop :=
+  ∃ k, w'.seen = w.seen ++ (idx w.buf w.bufPos).take k ∧
+    (idx w'.buf w'.bufPos = (idx w.buf w.bufPos).drop k ∨ idx w'.buf w'.bufPos = [])
+
+theorem Consumes.refl (w : Worker) : Consumes w w := ⟨0, by simp, Or.inl (by simp)⟩
+
+theorem Consumes.trans {w w' w'' : Worker} (h1 : Consumes w w') (h2 : Consumes w' w'') :
+    Consumes w w'' := by
+  obtain ⟨k, hs, hb⟩ := h1
+  obtain ⟨k', hs', hb'⟩ := h2
+  rcases hb with hb | hb
+  · refine ⟨k + k', ?_, ?_⟩
+    · rw [hs', hs, hb, List.take_add, List.append_assoc]
+    · rcases hb' with hb' | hb'
+      · left; rw [hb', hb, List.drop_drop]
+      · right; exact hb'
+  · refine ⟨k, ?_, Or.inr ?_⟩
+    · rw [hs', hs, hb]; simp
+    · rcases hb' with hb' | hb'
+      · rw [hb', hb]; simp
+      · exact hb'
+
+/-- one step in a stopped state -/
+theorem step_stopped (s : State) (hs : s.stopped = true) (t : Nat) :
+    (step s t).log = s.log ∧ (step s t).pos = s.pos ∧ (step s t).stopped = true ∧
+    ∀ (t' : Nat) (w w' : Worker), s.ws[t']? = some w → (step s t).ws[t']? = some w' →
+      Consumes w w' := by
+  have key : ∀ (w w' : Worker), s.ws[t]? = some w → Consumes w w' →
+      ∀ (t' : Nat) (v v' : Worker), s.ws[t']? = some v → (s.ws.set t w')[t']? = some v' →
+        Consumes v v' := by
+    intro w w' hw hc t' v v' hv hv'
+    by_cases htt : t' = t
+    · subst htt
+      rw [get_set_self hw] at hv'
+      rw [hw] at hv
+      cases hv; cases hv'
+      exact hc
+    · rw [get_set_ne _ htt, hv] at hv'
+      cases hv'
+      exact Consumes.refl v
+  apply step_cases s t (P := fun s' => s'.log = s.log ∧ s'.pos = s.pos ∧ s'.stopped = true ∧
+    ∀ (t' : Nat) (w w' : Worker), s.ws[t']? = some w → s'.ws[t']? = some w' → Consumes w w')
+  · intro _
+    refine ⟨rfl, rfl, hs, ?_⟩
+    intro t' w w' hw hw'
+    rw [hw] at hw'; cases hw'
+    exact Consumes.refl w
+  · intro w hw _
+    exact ⟨rfl, rfl, rfl, key w _ hw ⟨0, by simp, Or.inl (by simp)⟩⟩
+  · intro w x rest hw _ hb _
+    refine ⟨rfl, rfl, hs, key w _ hw ⟨1, ?_, Or.inr rfl⟩⟩
+    rw [hb, idx_cons]; rfl
+  · intro w x rest hw _ hb _
+    refine ⟨rfl, rfl, hs, key w _ hw ⟨1, ?_, Or.inl ?_⟩⟩
+    · rw [hb, idx_cons]; rfl
+    · rw [hb, idx_cons]; rfl
+  · intro w hw _ _ _
+    exact ⟨rfl, rfl, hs, key w _ hw ⟨0, by simp, Or.inl (by simp)⟩⟩
+  · intro w _ _ _ hs' _
+    rw [hs] at hs'; cases hs'
+
+theorem run_stopped (s : State) (hs : s.stopped = true) (sched : List Nat) :
+    (run s sched).log = s.log ∧ (run s sched).pos = s.pos ∧ (run s sched).stopped = true ∧
+    ∀ (t' : Nat) (w w' : Worker), s.ws[t']? = some w → (run s sched).ws[t']? = some w' →
+      Consumes w w' := by
+  induction sched generalizing s with
+  | nil =>
+    refine ⟨rfl, rfl, hs, ?_⟩
+    intro t' w w' hw hw'
+    have : s.ws[t']? = some w' := hw'
+    rw [hw] at this; cases this
+    exact Consumes.refl w
+  | cons t ts ih =>
+    obtain ⟨h1, h2, h3, h4⟩ := step_stopped s hs t
+    obtain ⟨i1, i2, i3, i4⟩ := ih (step s t) h3
+    simp only [run, List.foldl_cons] at i1 i2 i3 i4 ⊢
+    refine ⟨i1.trans h1, i2.trans h2, i3, ?_⟩
+    intro t' w w' hw hw'
+    have hlt : t' < (step s t).ws.length := by
+      rw [(step_frame s t).1]; exact (List.getElem?_eq_some_iff.1 hw).1
+    have hw1 : (step s t).ws[t']? = some (step s t).ws[t'] := List.getElem?_eq_getElem hlt
+    exact (h4 t' w _ hw hw1).trans (i4 t' _ w' hw1 hw')
 
 /-- **C10 (safety).** once the iterator has been stopped no pull succeeds any more … -/
 theorem stopped_no_pull (s : State) (hs : s.stopped = true) (sched : List Nat) :
     (run s sched).log = s.log ∧ (run s sched).pos = s.pos ∧ (run s sched).stopped = true := by
-  sorry
+  obtain ⟨h1, h2, h3, _⟩ := run_stopped s hs sched
+  exact ⟨h1, h2, h3⟩
 
 /-- … and every worker evaluates at most the rest of the chunk it holds at that moment -/
 theorem stopped_eval_bound (s : State) (hs : s.stopped = true) (sched : List Nat) (t : Nat)
     (w w' : Worker) (hw : s.ws[t]? = some w) (hw' : (run s sched).ws[t]? = some w') :
     ∃ k, w'.seen = w.seen ++ (idx w.buf w.bufPos).take k := by
-  sorry
+  obtain ⟨_, _, _, h4⟩ := run_stopped s hs sched
+  obtain ⟨k, hk, _⟩ := h4 t w w' hw hw'
+  exact ⟨k, hk⟩
+
+/-! ### equal chunk sizes -/
+
+/-- the invariant behind `exact_pulls` -/
+structure PInv (s : State) (l c : Nat) : Prop where
+  len : s.len = some l
+  dvd : c ∣ s.pos
+  cs : ∀ (t : Nat) (w : Worker), s.ws[t]? = some w → w.c = c
+  log : ∀ e ∈ s.log, c ∣ e.start ∧ e.start < l ∧ e.items.length = Nat.min c (l - e.start) ∧
+      e.items = slice s.src e.start (Nat.min c (l - e.start))
+
+theorem pinv_set {s s' : State} {l c t : Nat} {w w' : Worker} (h : PInv s l c)
+    (hw : s.ws[t]? = some w) (hws : s'.ws = s.ws.set t w') (hc : w'.c = w.c)
+    (hsrc : s'.src = s.src) (hlen : s'.len = s.len) (hpos : s'.pos = s.pos)
+    (hlog : s'.log = s.log) : PInv s' l c := by
+  refine ⟨hlen.trans h.len, hpos ▸ h.dvd, ?_, ?_⟩
+  · intro t' v hv
+    rw [hws] at hv
+    by_cases htt : t' = t
+    · subst htt
+      rw [get_set_self hw] at hv
+      cases hv
+      exact hc.trans (h.cs t' w hw)
+    · rw [get_set_ne _ htt] at hv
+      exact h.cs t' v hv
+  · rw [hlog, hsrc]; exact h.log
+
+theorem step_pinv (s : State) (l c : Nat) (h : PInv s l c) (t : Nat) : PInv (step s t) l c := by
+  apply step_cases s t (P := fun s' => PInv s' l c)
+  · intro _; exact h
+  · intro w hw _; exact pinv_set h hw rfl rfl rfl rfl rfl rfl
+  · intro w x rest hw _ _ _; exact pinv_set h hw rfl rfl rfl rfl rfl rfl
+  · intro w x rest hw _ _ _; exact pinv_set h hw rfl rfl rfl rfl rfl rfl
+  · intro w hw _ _ _; exact pinv_set h hw rfl rfl rfl rfl rfl rfl
+  · intro w hw _ _ _ hn
+    have hwc := h.cs t w hw
+    have hav : avail s.len s.pos w.c = Nat.min c (l - s.pos) := by
+      rw [h.len, hwc]; rfl
+    rw [hav] at hn
+    have hlt : s.pos < l := by
+      simp only [Nat.min_def] at hn
+      split at hn <;> omega
+    refine ⟨h.len, ?_, ?_, ?_⟩
+    · show c ∣ s.pos + w.c
+      rw [hwc]
+      exact (Nat.dvd_add_right h.dvd).2 (Nat.dvd_refl c)
+    · intro t' v hv
+      by_cases htt : t' = t
+      · subst htt
+        have : (pullS s t' w).ws[t']? = some _ := get_set_self hw
+        rw [this] at hv
+        cases hv
+        exact hwc
+      · have : (pullS s t w).ws[t']? = s.ws[t']? := get_set_ne _ htt
+        rw [this] at hv
+        exact h.cs t' v hv
+    · intro e he
+      have : e ∈ s.log ++ [⟨t, s.pos, slice s.src s.pos (avail s.len s.pos w.c)⟩] := he
+      rcases List.mem_append.1 this with he | he
+      · exact h.log e he
+      · rw [List.mem_singleton.1 he, hav]
+        exact ⟨h.dvd, hlt, slice_length _ _ _, rfl⟩
+
+theorem run_pinv (s : State) (l c : Nat) (h : PInv s l c) (sched : List Nat) :
+    PInv (run s sched) l c := by
+  induction sched generalizing s with
+  | nil => exact h
+  | cons t ts ih => exact ih (step s t) (step_pinv s l c h t)
+
+theorem init_pinv (src : Nat → Val) (l : Nat) (hit : Val → Bool) (n c : Nat) :
+    PInv (init src (some l) hit (List.replicate n c)) l c := by
+  refine ⟨rfl, Nat.dvd_zero c, ?_, ?_⟩
+  · intro t w hw
+    simp only [init, List.getElem?_map, Option.map_eq_some_iff] at hw
+    obtain ⟨c', hc', rfl⟩ := hw
+    exact List.eq_of_mem_replicate (List.mem_of_getElem? hc')
+  · intro e he; simp [init] at he
 
 /-- **C11 (pulls).** all workers with the same chunk size `c` over a source of known length `l`:
     every pull starts at a multiple of `c`, lies inside the source and takes exactly
@@ -183,14 +793,27 @@ theorem exact_pulls (src : Nat → Val) (l : Nat) (hit : Val → Bool) (n c : Na
     ∀ e ∈ (run (init src (some l) hit (List.replicate n c)) sched).log,
       c ∣ e.start ∧ e.start < l ∧ e.items.length = Nat.min c (l - e.start) ∧
       e.items = slice src e.start (Nat.min c (l - e.start)) := by
-  sorry
+  have _ := hc
+  have h := run_pinv _ l c (init_pinv src l hit n c) sched
+  have hsrc : (run (init src (some l) hit (List.replicate n c)) sched).src = src :=
+    (run_frame _ sched).2.1
+  intro e he
+  have := h.log e he
+  rw [hsrc] at this
+  exact this
 
 /-- hence all positions of an aligned block `[k·c, (k+1)·c)` are pulled by the same worker -/
 theorem exact_blocks (src : Nat → Val) (l : Nat) (hit : Val → Bool) (n c : Nat) (hc : 0 < c)
     (sched : List Nat) (e : Chunk)
     (he : e ∈ (run (init src (some l) hit (List.replicate n c)) sched).log) (i : Nat)
     (hi : e.start ≤ i ∧ i < e.start + e.items.length) : i / c = e.start / c := by
-  sorry
+  obtain ⟨⟨k, hk⟩, _, hlen, _⟩ := exact_pulls src l hit n c hc sched e he
+  have hle : e.items.length ≤ c := by
+    rw [hlen]; simp only [Nat.min_def]; split <;> omega
+  rw [hk, Nat.mul_div_cancel_left k hc]
+  apply Nat.div_eq_of_lt_le
+  · rw [Nat.mul_comm]; omega
+  · rw [Nat.add_mul, Nat.one_mul, Nat.mul_comm]; omega
 
 /-- progress: a step of a worker that is not done strictly decreases this measure when the
     source is finite, so every sufficiently long fair schedule finishes -/
@@ -198,10 +821,63 @@ def measure (s : State) (l : Nat) : Nat :=
   2 * (l - s.pos) + (s.ws.map fun w =>
     w.buf.length + (match w.status with | .running => 2 | .publishing => 1 | .done => 0)).sum
 
+theorem sum_map_set {α : Type} (f : α → Nat) (ws : List α) (t : Nat) (w w' : α)
+    (h : ws[t]? = some w) : ((ws.set t w').map f).sum + f w = (ws.map f).sum + f w' := by
+  induction ws generalizing t with
+  | nil => simp at h
+  | cons a ws ih =>
+    cases t with
+    | zero =>
+      simp only [List.getElem?_cons_zero, Option.some.injEq] at h
+      subst h
+      simp only [List.set_cons_zero, List.map_cons, List.sum_cons]
+      omega
+    | succ t =>
+      simp only [List.getElem?_cons_succ] at h
+      have := ih t h
+      simp only [List.set_cons_succ, List.map_cons, List.sum_cons]
+      omega
+
 theorem step_measure (s : State) (l : Nat) (hl : s.len = some l) (t : Nat) (w : Worker)
     (hw : s.ws[t]? = some w) (hnd : w.status ≠ .done) (hc : 0 < w.c) :
     measure (step s t) l < measure s l := by
-  sorry
+  have hsum := fun w' => sum_map_set (fun w : Worker =>
+    w.buf.length + (match w.status with | .running => 2 | .publishing => 1 | .done => 0))
+    s.ws t w w' hw
+  apply step_cases s t (P := fun s' => measure s' l < measure s l)
+  · intro h
+    rcases h with h | ⟨v, hv, hst⟩
+    · rw [hw] at h; cases h
+    · rw [hw] at hv; cases hv; exact absurd hst hnd
+  · intro v hv hst
+    rw [hw] at hv; cases hv
+    have := hsum { w with status := .done }
+    simp only [measure, hst] at this ⊢
+    omega
+  · intro v x rest hv hst hb _
+    rw [hw] at hv; cases hv
+    have := hsum (hitW w x rest)
+    simp only [measure, hitW, hst, hb, List.length_cons, List.length_nil] at this ⊢
+    omega
+  · intro v x rest hv hst hb _
+    rw [hw] at hv; cases hv
+    have := hsum (nohitW w x rest)
+    simp only [measure, nohitW, hst, hb, List.length_cons] at this ⊢
+    omega
+  · intro v hv hst hb _
+    rw [hw] at hv; cases hv
+    have := hsum { w with status := .done }
+    simp only [measure, hst, hb, List.length_nil] at this ⊢
+    omega
+  · intro v hv hst hb _ hn
+    rw [hw] at hv; cases hv
+    have := hsum { w with buf := slice s.src s.pos (avail s.len s.pos w.c), bufPos := s.pos }
+    rw [hl] at hn this
+    simp only [measure, pullS, hst, hb, hl, List.length_nil, slice_length, avail,
+      Nat.min_def] at this hn ⊢
+    by_cases hle : w.c ≤ l - s.pos
+    · simp only [if_pos hle] at this hn ⊢; omega
+    · simp only [if_neg hle] at this hn ⊢; omega
 
 /-- non-vacuity: a finishing schedule in which worker 1 pulls the first chunk, worker 0 finds the
     hit (value 13 at index 3) in a later chunk and stops the iterator, worker 2 never gets anything -/
